@@ -3,7 +3,7 @@
 import copy
 
 from . import registry
-from .exceptions import ParseError
+from .exceptions import CustomContentError, ParseError
 from .utils import _get_dict, detect_spec_version
 
 
@@ -96,7 +96,15 @@ def dict_to_stix2(stix_dict, allow_custom=False, interoperability=False, version
                 return stix_dict
         raise ParseError("Can't parse unknown object type '%s'! For custom types, use the CustomObject decorator." % obj_type)
 
-    return obj_class(allow_custom=allow_custom, interoperability=interoperability, **stix_dict)
+    obj = obj_class(allow_custom=allow_custom, interoperability=interoperability, **stix_dict)
+
+    if not allow_custom and obj.has_custom:
+        # The constructor honors a "custom_properties" keyword as a request
+        # for customization; content must not be able to make that request
+        # on behalf of a caller who disallowed it.
+        raise CustomContentError("custom content encountered")
+
+    return obj
 
 
 def parse_observable(data, _valid_refs=None, allow_custom=False, interoperability=False, version=None):
@@ -144,4 +152,11 @@ def parse_observable(data, _valid_refs=None, allow_custom=False, interoperabilit
             "use the CustomObservable decorator." % obj['type'],
         )
 
-    return obj_class(allow_custom=allow_custom, interoperability=interoperability, **obj)
+    parsed_obj = obj_class(allow_custom=allow_custom, interoperability=interoperability, **obj)
+
+    if not allow_custom and parsed_obj.has_custom:
+        # See dict_to_stix2(): a "custom_properties" key in the content must
+        # not override the caller's allow_custom=False.
+        raise CustomContentError("custom content encountered")
+
+    return parsed_obj
